@@ -850,9 +850,17 @@ func (g *GoFakeS3) copyObject(bucket, object string, meta map[string]string, w h
 	if err != nil {
 		return err
 	}
-	srcObj, err := g.storage.HeadObject(srcBucket, srcKey)
+	// The metadata and the body of the copy must be those of one and the same
+	// object: both come from a single GetObject. (Looking at the source with
+	// HeadObject first and having the backend read it again for the body let
+	// an overwrite of the source slip in between; the copy then carried the
+	// headers of one upload and the bytes of another.)
+	srcObj, err := g.storage.GetObject(srcBucket, srcKey, nil)
 	if err != nil {
 		return err
+	}
+	if srcObj.Contents != nil {
+		defer srcObj.Contents.Close()
 	}
 	verifhook.At("copy.after-head")
 
@@ -866,10 +874,14 @@ func (g *GoFakeS3) copyObject(bucket, object string, meta map[string]string, w h
 			meta[k] = v
 		}
 	}
-
-	result, err := g.storage.CopyObject(srcBucket, srcKey, bucket, object, meta)
+	put, err := g.storage.PutObject(bucket, object, meta, srcObj.Contents, srcObj.Size)
 	if err != nil {
 		return err
+	}
+	result := CopyObjectResult{
+		ETag:         `"` + hex.EncodeToString(srcObj.Hash) + `"`,
+		LastModified: NewContentTime(g.timeSource.Now()),
+		VersionID:    put.VersionID,
 	}
 
 	if srcObj.VersionID != "" {
